@@ -359,10 +359,17 @@ func runC18(r *ev.Recorder) {
 			if names[ps[0]] == names[ps[1]] || guessKey(ps[0]) == guessKey(ps[1]) {
 				one(ps, "last-reference-shared-with-an-earlier-file")
 				// two stand-alone fragments one after the other: the second is qualified by its own name
+				alone := jh.Catch(func() (string, error) { return jen.Qual(ps[1], "Y").GoString(), nil })
 				jh.Catch(func() (string, error) { return jen.Qual(ps[0], "X").GoString(), nil })
 				o := jh.Catch(func() (string, error) { return jen.Qual(ps[1], "Y").GoString(), nil })
 				r.Eval(1)
-				if want := names[ps[1]] + ".Y"; !o.OK() || strings.TrimSpace(o.Out) != want {
+				// (the name a fragment shows for a package the tree's table does not know is a guess: the
+				// reference is the same fragment rendered before the other one)
+				want := strings.TrimSpace(alone.Out)
+				if goroot == runtime.GOROOT() {
+					want = names[ps[1]] + ".Y"
+				}
+				if !o.OK() || strings.TrimSpace(o.Out) != want {
 					desc := fmt.Sprintf("Qual(%q, X).GoString() and then Qual(%q, Y).GoString()", ps[0], ps[1])
 					r.Violate(ev.Violation{Signature: "c18:fragment-after-fragment", What: fmt.Sprintf("%s: the second renders %q, want %q", desc, o, want), Case: ev.JSON(c18Case{Goroot: goroot, Paths: ps, Scenario: "gennames", Desc: desc})})
 				}
